@@ -26,6 +26,14 @@ package types
 //@   nopanic[*]
 //@   ensures[* same] err == nil ==> ret == nodeInfo
 //@   ensures[* failclosed] err != nil ==> ret == nil && !isNotFound(err)
+//@   ensures[C12,* unwrapped] err == nil ==> nodeInfo.WrappingKeyId == ""
+//@   ensures[C12,* clear] err == nil && old(nodeInfo.WrappingKeyId) == "" ==>
+//@   |   bytes(nodeInfo.ServerEncryptionPrivateKeyBytes) == old(bytes(nodeInfo.ServerEncryptionPrivateKeyBytes))
+//@   ensures[C12,* unsealed] err == nil && old(nodeInfo.WrappingKeyId) != "" && old(len(nodeInfo.ServerEncryptionPrivateKeyBytes)) > 0 ==>
+//@   |   opts(opt).WithStorageWrapper != nil
+//@   |   && wOkS(opts(opt).WithStorageWrapper, blobCt(old(bytes(nodeInfo.ServerEncryptionPrivateKeyBytes))), nodeInfo.CertificatePublicKeyPkix)
+//@   |   && bytes(nodeInfo.ServerEncryptionPrivateKeyBytes) == wPtS(opts(opt).WithStorageWrapper, blobCt(old(bytes(nodeInfo.ServerEncryptionPrivateKeyBytes))), nodeInfo.CertificatePublicKeyPkix)
+//@   ensures[C12,* nowrapper] old(nodeInfo.WrappingKeyId) != "" && opts(opt).WithStorageWrapper == nil ==> err != nil
 //@   modifies nodeInfo.ServerEncryptionPrivateKeyBytes, nodeInfo.WrappingKeyId
 
 //@ func types.LoadNodeInformation
@@ -33,6 +41,13 @@ package types
 //@   ensures[* failclosed] err != nil ==> ret == nil
 //@   ensures[* found] err == nil ==> ret != nil && fresh(ret) && id != "" && ret.Id == id && StHas("nodeinfo", id) && loadedFrom(ret, StGet("nodeinfo", id))
 //@   ensures[* notfound] reliable() && err != nil && storage != nil && id != "" && !opts(opt).Err && isNotFound(err) ==> !StHas("nodeinfo", id)
+//@   ensures[C12 nowrapper] StHas("nodeinfo", id) && StGet("nodeinfo", id).WrappingKeyId != "" && opts(opt).WithStorageWrapper == nil ==> err != nil
+//@   ensures[C12 unsealed] err == nil && StGet("nodeinfo", id).WrappingKeyId != "" && len(StGet("nodeinfo", id).ServerEncryptionPrivateKeyBytes) > 0 ==>
+//@   |   opts(opt).WithStorageWrapper != nil
+//@   |   && wOkS(opts(opt).WithStorageWrapper, blobCt(StGet("nodeinfo", id).ServerEncryptionPrivateKeyBytes), StGet("nodeinfo", id).CertificatePublicKeyPkix)
+//@   |   && bytes(ret.ServerEncryptionPrivateKeyBytes) == wPtS(opts(opt).WithStorageWrapper, blobCt(StGet("nodeinfo", id).ServerEncryptionPrivateKeyBytes), StGet("nodeinfo", id).CertificatePublicKeyPkix)
+//@   ensures[C12 clear] err == nil && StGet("nodeinfo", id).WrappingKeyId == "" ==>
+//@   |   bytes(ret.ServerEncryptionPrivateKeyBytes) == bytes(StGet("nodeinfo", id).ServerEncryptionPrivateKeyBytes)
 
 //@ func types.LoadNodeInformationSetByNodeId
 //@   trusted -- body not verified yet: the loop needs an invariant over the not-yet-processed input elements
@@ -166,6 +181,10 @@ package types
 //@   |   bytes(StGet("roots", "roots").Current.PrivateKeyPkcs8) == bytes(r.Current.PrivateKeyPkcs8)
 //@   |   && bytes(StGet("roots", "roots").Next.PrivateKeyPkcs8) == bytes(r.Next.PrivateKeyPkcs8)
 //@   |   && StGet("roots", "roots").WrappingKeyId == old(r.WrappingKeyId)
+//@   ensures[C12 sealed] err == nil && opts(opt).WithStorageWrapper != nil ==> StGet("roots", "roots").WrappingKeyId == wKeyId(opts(opt).WithStorageWrapper)
+//@   |   && sealedBy(StGet("roots", "roots").Current.PrivateKeyPkcs8, opts(opt).WithStorageWrapper, r.Current.PrivateKeyPkcs8, r.Current.PublicKeyPkix)
+//@   |   && sealedBy(StGet("roots", "roots").Next.PrivateKeyPkcs8, opts(opt).WithStorageWrapper, r.Next.PrivateKeyPkcs8, r.Next.PublicKeyPkix)
+//@   ensures[C12 callerkept] err == nil ==> bytes(r.Current.PrivateKeyPkcs8) == old(bytes(r.Current.PrivateKeyPkcs8)) && bytes(r.Next.PrivateKeyPkcs8) == old(bytes(r.Next.PrivateKeyPkcs8)) && r.WrappingKeyId == old(r.WrappingKeyId)
 //@   ensures[* failed] err != nil ==> StHas("roots", "roots") == old(StHas("roots", "roots")) && StGet("roots", "roots") == old(StGet("roots", "roots"))
 //@   ensures[* others] forall id String :: id != "roots" ==> StHas("roots", id) == old(StHas("roots", id)) && StGet("roots", id) == old(StGet("roots", id))
 //@   modifies StRoots, r.State
@@ -191,6 +210,9 @@ package types
 //@   ensures[C12 sealed] err == nil && opts(opt).WithStorageWrapper != nil ==> StGet("nodeinfo", n.Id).WrappingKeyId == wKeyId(opts(opt).WithStorageWrapper)
 //@   |   && (len(n.ServerEncryptionPrivateKeyBytes) > 0 ==> sealedBy(StGet("nodeinfo", n.Id).ServerEncryptionPrivateKeyBytes,
 //@   |         opts(opt).WithStorageWrapper, n.ServerEncryptionPrivateKeyBytes, n.CertificatePublicKeyPkix))
+//@   ensures[C12 prevkeysealed] err == nil && opts(opt).WithStorageWrapper != nil && n.PreviousEncryptionKey != nil ==>
+//@   |   StGet("nodeinfo", n.Id).PreviousEncryptionKey != nil
+//@   |   && sealedBy(StGet("nodeinfo", n.Id).PreviousEncryptionKey.PrivateKeyPkcs8, opts(opt).WithStorageWrapper, n.PreviousEncryptionKey.PrivateKeyPkcs8, n.CertificatePublicKeyPkix)
 //@   ensures[* failed] err != nil && n != nil ==> StHas("nodeinfo", n.Id) == old(StHas("nodeinfo", n.Id)) && StGet("nodeinfo", n.Id) == old(StGet("nodeinfo", n.Id))
 //@   ensures[* others] forall id String :: n == nil || id != n.Id ==> StHas("nodeinfo", id) == old(StHas("nodeinfo", id)) && StGet("nodeinfo", id) == old(StGet("nodeinfo", id))
 //@   modifies StNodeInfo
@@ -223,3 +245,70 @@ package types
 //@   |   && wOkS(opts(opt).WithStorageWrapper, blobCt(StGet("token", id).CreationTimeMarshaled), id)
 //@   |   && tsTime(ret.CreationTime) == unMts(wPtS(opts(opt).WithStorageWrapper, blobCt(StGet("token", id).CreationTimeMarshaled), id))
 //@   ensures[* notfound] reliable() && err != nil && isNotFound(err) ==> !StHas("token", id)
+
+// ---------------------------------------------------------------- NodeCredentials Store / Load, sealed roots (C12, C13)
+
+//@ pred storedCreds(s, n) := s != nil && s.Id == n.Id && bytes(s.CertificatePublicKeyPkix) == bytes(n.CertificatePublicKeyPkix)
+//@   | && s.CertificatePrivateKeyType == n.CertificatePrivateKeyType && s.EncryptionPrivateKeyType == n.EncryptionPrivateKeyType
+//@   | && bytes(s.ServerEncryptionPublicKeyBytes) == bytes(n.ServerEncryptionPublicKeyBytes) && s.ServerEncryptionPublicKeyType == n.ServerEncryptionPublicKeyType
+//@   | && s.CertificateBundles == n.CertificateBundles && s.State == n.State
+
+//@ func types.(*NodeCredentials).Store
+//@   nopanic[*]
+//@   ensures[* stored] err == nil ==> n != nil && (n.Id == "current" || n.Id == "next") && StHas("nodecreds", n.Id) && storedCreds(StGet("nodecreds", n.Id), n)
+//@   ensures[* clear] err == nil && opts(opt).WithStorageWrapper == nil ==>
+//@   |   bytes(StGet("nodecreds", n.Id).CertificatePrivateKeyPkcs8) == bytes(n.CertificatePrivateKeyPkcs8)
+//@   |   && bytes(StGet("nodecreds", n.Id).EncryptionPrivateKeyBytes) == bytes(n.EncryptionPrivateKeyBytes)
+//@   |   && bytes(StGet("nodecreds", n.Id).RegistrationNonce) == bytes(n.RegistrationNonce)
+//@   |   && StGet("nodecreds", n.Id).WrappingKeyId == n.WrappingKeyId
+//@   ensures[C12 sealed] err == nil && opts(opt).WithStorageWrapper != nil ==> StGet("nodecreds", n.Id).WrappingKeyId == wKeyId(opts(opt).WithStorageWrapper)
+//@   |   && sealedBy(StGet("nodecreds", n.Id).CertificatePrivateKeyPkcs8, opts(opt).WithStorageWrapper, n.CertificatePrivateKeyPkcs8, n.CertificatePublicKeyPkix)
+//@   |   && sealedBy(StGet("nodecreds", n.Id).EncryptionPrivateKeyBytes, opts(opt).WithStorageWrapper, n.EncryptionPrivateKeyBytes, n.CertificatePublicKeyPkix)
+//@   |   && (len(n.RegistrationNonce) != 0 ==> sealedBy(StGet("nodecreds", n.Id).RegistrationNonce, opts(opt).WithStorageWrapper, n.RegistrationNonce, n.CertificatePublicKeyPkix))
+//@   ensures[C12 prevkeysealed] err == nil && opts(opt).WithStorageWrapper != nil && n.PreviousEncryptionKey != nil ==>
+//@   |   StGet("nodecreds", n.Id).PreviousEncryptionKey != nil
+//@   |   && sealedBy(StGet("nodecreds", n.Id).PreviousEncryptionKey.PrivateKeyPkcs8, opts(opt).WithStorageWrapper, n.PreviousEncryptionKey.PrivateKeyPkcs8, n.CertificatePublicKeyPkix)
+//@   ensures[* failed] err != nil && n != nil ==> StHas("nodecreds", n.Id) == old(StHas("nodecreds", n.Id)) && StGet("nodecreds", n.Id) == old(StGet("nodecreds", n.Id))
+//@   ensures[* others] forall id String :: n == nil || id != n.Id ==> StHas("nodecreds", id) == old(StHas("nodecreds", id)) && StGet("nodecreds", id) == old(StGet("nodecreds", id))
+//@   modifies StNodeCreds
+
+//@ func types.LoadNodeCredentials
+//@   nopanic[*]
+//@   ensures[* failclosed] err != nil ==> ret == nil
+//@   ensures[* found] err == nil ==> ret != nil && fresh(ret) && (id == "current" || id == "next") && ret.Id == id && StHas("nodecreds", id)
+//@   |   && storedCreds(ret, StGet("nodecreds", id)) && ret.WrappingKeyId == ""
+//@   ensures[C12,* clear] err == nil && StGet("nodecreds", id).WrappingKeyId == "" ==>
+//@   |   bytes(ret.CertificatePrivateKeyPkcs8) == bytes(StGet("nodecreds", id).CertificatePrivateKeyPkcs8)
+//@   |   && bytes(ret.EncryptionPrivateKeyBytes) == bytes(StGet("nodecreds", id).EncryptionPrivateKeyBytes)
+//@   |   && bytes(ret.RegistrationNonce) == bytes(StGet("nodecreds", id).RegistrationNonce)
+//@   ensures[C12,* unsealed] err == nil && StGet("nodecreds", id).WrappingKeyId != "" ==> opts(opt).WithStorageWrapper != nil
+//@   |   && wOkS(opts(opt).WithStorageWrapper, blobCt(StGet("nodecreds", id).CertificatePrivateKeyPkcs8), StGet("nodecreds", id).CertificatePublicKeyPkix)
+//@   |   && bytes(ret.CertificatePrivateKeyPkcs8) == wPtS(opts(opt).WithStorageWrapper, blobCt(StGet("nodecreds", id).CertificatePrivateKeyPkcs8), StGet("nodecreds", id).CertificatePublicKeyPkix)
+//@   |   && wOkS(opts(opt).WithStorageWrapper, blobCt(StGet("nodecreds", id).EncryptionPrivateKeyBytes), StGet("nodecreds", id).CertificatePublicKeyPkix)
+//@   |   && bytes(ret.EncryptionPrivateKeyBytes) == wPtS(opts(opt).WithStorageWrapper, blobCt(StGet("nodecreds", id).EncryptionPrivateKeyBytes), StGet("nodecreds", id).CertificatePublicKeyPkix)
+//@   ensures[C12,* nowrapper] StHas("nodecreds", id) && StGet("nodecreds", id).WrappingKeyId != "" && opts(opt).WithStorageWrapper == nil ==> err != nil
+//@   ensures[* notfound] reliable() && err != nil && isNotFound(err) ==> !StHas("nodecreds", id)
+
+// ---------------------------------------------------------------- C12 lemmas
+
+//@ func types.lemmaNodeInfoStoreLoad
+//@   requires n != nil
+//@   ensures[C12 roundtrip] serr == nil && lerr == nil ==> out != nil && out.Id == n.Id
+//@   |   && bytes(out.ServerEncryptionPrivateKeyBytes) == bytes(n.ServerEncryptionPrivateKeyBytes)
+//@   |   && bytes(out.CertificatePublicKeyPkix) == bytes(n.CertificatePublicKeyPkix) && bytes(out.RegistrationNonce) == bytes(n.RegistrationNonce)
+//@   |   && bytes(out.EncryptionPublicKeyBytes) == bytes(n.EncryptionPublicKeyBytes) && out.State == n.State
+//@   modifies StNodeInfo
+
+//@ func types.lemmaNodeInfoTransplant
+//@   requires StHas("nodeinfo", id) && StGet("nodeinfo", id).WrappingKeyId != "" && len(StGet("nodeinfo", id).ServerEncryptionPrivateKeyBytes) > 0
+//@   requires exists p String, a String :: a != bytes(StGet("nodeinfo", id).CertificatePublicKeyPkix)
+//@   |   && sealedBy(StGet("nodeinfo", id).ServerEncryptionPrivateKeyBytes, opts(opt).WithStorageWrapper, p, a)
+//@   ensures[C12 transplant] err != nil
+
+//@ func types.lemmaNodeCredsStoreLoad
+//@   requires n != nil
+//@   ensures[C12 roundtrip] serr == nil && lerr == nil ==> out != nil && out.Id == n.Id
+//@   |   && bytes(out.CertificatePrivateKeyPkcs8) == bytes(n.CertificatePrivateKeyPkcs8)
+//@   |   && bytes(out.EncryptionPrivateKeyBytes) == bytes(n.EncryptionPrivateKeyBytes)
+//@   |   && bytes(out.CertificatePublicKeyPkix) == bytes(n.CertificatePublicKeyPkix)
+//@   modifies StNodeCreds
